@@ -47,7 +47,10 @@ inline size_t decode_len(pbt::Tape &t, size_t big) {
 // deterministic data fill from a generated seed
 inline void fill(uint8_t *p, size_t n, uint64_t seed, int kind) {
 	switch (kind) {
-	case 0: for (size_t i = 0; i < n; i++) p[i] = (uint8_t) (pbt::mix64(seed + (i >> 3)) >> ((i & 7) * 8)); break; // random
+	case 0: // random; one seed in eight gives record-like sparse data instead: 16-byte lanes that are entirely zero next to random ones
+		if ((pbt::mix64(seed ^ 0x51ab5e) & 7) == 5) { for (size_t i = 0; i < n; i++) p[i] = (pbt::mix64(seed + 977 * (i >> 4)) & 1) ? 0 : (uint8_t) (pbt::mix64(seed + (i >> 3)) >> ((i & 7) * 8)); break; }
+		for (size_t i = 0; i < n; i++) p[i] = (uint8_t) (pbt::mix64(seed + (i >> 3)) >> ((i & 7) * 8));
+		break;
 	case 1: memset(p, 0, n); break;
 	case 2: memset(p, 0xFF, n); break;
 	case 3: for (size_t i = 0; i < n; i++) p[i] = (uint8_t) (i + seed); break; // sawtooth
